@@ -298,6 +298,22 @@ def concrete(repo, seed, tier):
                                         if not same:
                                             return ev, dict(function="srs", freq=freq.tolist(), stype=stype, ic=ic, getresp=getresp, columns=ncol_, rolloff=roll, workers=ncpu,
                                                             what="parallel result (%d input columns) is not bit-identical to serial" % ncol_)
+        # peak statistics that sum over time (rms) on several columns; long frequency vectors relative to the number of workers (23, 31, 45 frequencies on 1-2 workers)
+        sigr = rng.randn(260, 3)
+        for pk in ("rms", "abs", "poss"):
+            for freq, ncpu in ((np.array([10.0, 30.0, 20.0]), 2), (np.linspace(5.0, 60.0, 23), 1), (np.linspace(5.0, 60.0, 31), 1), (np.linspace(4.0, 70.0, 45), 2)):
+                for getresp in ((False, True) if len(freq) == 3 else (False,)):
+                    with np.errstate(all="ignore"):
+                        ref = srs.srs(sigr, sr, freq, 20, peak=pk, getresp=getresp, parallel="no")
+                        FakePool.order = None if len(freq) > 3 else (lambda n: list(range(n))[::-1])
+                        got = srs.srs(sigr, sr, freq, 20, peak=pk, getresp=getresp, parallel="yes", maxcpu=ncpu)
+                    ev += 1
+                    a = ref[0] if getresp else ref
+                    b = got[0] if getresp else got
+                    if not np.array_equal(a, b, equal_nan=True):
+                        bad_ = np.argwhere(~(np.asarray(a) == np.asarray(b)))
+                        return ev, dict(function="srs", peak=pk, n_freq=int(len(freq)), workers=ncpu, getresp=getresp, columns=3, first_differing_entries=bad_[:5].tolist(),
+                                        what="parallel result (peak=%r, %d frequencies, %d worker(s)) is not bit-identical to serial" % (pk, len(freq), ncpu))
         sig2 = rng.randn(1200)
         for freq in (np.array([10.0, 36.0, 20.0, 14.0, 28.0]), np.array([30.0, 20.0, 10.0]), np.array([10.0, 30.0, 20.0])):
             for resp in ("absacce", "pvelo"):
